@@ -208,11 +208,38 @@ class Mul(Suite):
                     out = {"err": "Other:rmul-differs"}
             except Exception as e:
                 out = {"err": "Other:rmul-" + exc_class(e)}
+            # the augmented assignment on a second name for the same object: it must give the same NEW scheme and leave the object alone;
+            # a Kemeny score computed with the original before and after must not move
+            from corankco.dataset import Dataset as _D
+            from corankco.ranking import Ranking as _R
+            from corankco.kemeny_score_computation import KemenyComputingFactory as _K
+            _ds, _c = _D.from_raw_list([[{1}, {2, 3}], [{3}, {1}]]), _R([{2}, {1, 3}])
+            v0 = _K(s).get_kemeny_score(_c, _ds)
+            try:
+                t = s
+                t *= k
+                if t is s or t.penalty_vectors != r.penalty_vectors:
+                    out = {"err": "Other:imul-differs"}
+            except Exception as e:
+                out = {"err": "Other:imul-" + exc_class(e)}
+            if _K(s).get_kemeny_score(_c, _ds) != v0:
+                out = {"err": "Other:score-of-original-moved"}
+            if "ok" in out and isinstance(k, (int, float)) and not isinstance(k, bool):
+                # ... and the product scales the score (exact on the grid)
+                if _K(r).get_kemeny_score(_c, _ds) != v0 * k:
+                    out = {"err": "Other:score-not-scaled"}
+                # ... also for a product formed AFTER the operand has been used to compute scores
+                if _K(s * k).get_kemeny_score(_c, _ds) != v0 * k or _K(k * s).get_kemeny_score(_c, _ds) != v0 * k:
+                    out = {"err": "Other:score-of-late-product-not-scaled"}
         except Exception as e:
             kk = exc_class(e)
             out = {"err": "MulValueError" if kk == "ValueError" else kk}
         if s.penalty_vectors != before:
             out = {"err": "Other:original-modified"}
+        if str(out.get("err", "")).startswith("Other:"):
+            # an observation the model has no value for (the operators disagree with each other, the operand changed, a score did not
+            # scale): reported as it is, with the input as replay
+            return {"harness_exception": out["err"][6:], "trace": f"scheme {case['s']} multiplied by {case['k']}: {out['err'][6:]}"}
         return out
 
     def term(self, case, out):
